@@ -71,24 +71,29 @@ Definition pass_time (k : stack) (now : Z) : stack * list out :=
     ({| k_sys := k_sys k3; k_token := k_token k3; k_exchange := k_exchange k3; k_now := now |}, o1 ++ o2 ++ o3)
   else (k, []).
 
+(* MessageManager.dispatch_message for an empty ACK / RST — and for an RST that carries a response code: _remove_exchange
+   runs for every ACK / RST (messagemanager.py:117-118), after which a Reset with a code "doesn't fit" and is ignored (148-154) *)
+Definition empty_step (k : stack) (now : Z) (mt : mtype) (mid_req : bool) : stack * list sout :=
+  match mt, mid_req, k_exchange k with
+  | ACK, true, Some _ => (sync k (k_sys k) (k_token k) None, [])
+  | RST, true, Some _ =>                                (* messageerror_monitor: request.add_exception(MessageError) *)
+      let '(s', outs) := add_event (k_sys k) now (EvExn MessageError) in (sync k s' (k_token k) None, map App outs)
+  | _, _, _ => (k, [])
+  end.
+
 Definition sstep (k0 : stack) (o : sop) : stack * list sout :=
   let now := match o with SResponse n _ _ _ _ _ => n | SEmpty n _ _ => n | SNetError n => n | SApp n _ => n end in
   let '(k, outs0) := pass_time k0 now in
   let '(k', outs) :=
     match o with
+    | SResponse _ RST _ _ _ mid_req => empty_step k now RST mid_req     (* never reaches TokenManager.process_response *)
     | SResponse _ mt id observe token_ok mid_req =>
         (* MessageManager.dispatch_message: an ACK with the request's mid removes the exchange first *)
         let k1 := match mt with ACK => if mid_req then sync k (k_sys k) (k_token k) None else k | _ => k end in
         let '(k2, outs, matched) := process_response k1 now id observe token_ok in
         if escaped outs then (k2, map App outs)              (* exception out of dispatch_message: no reply *)
         else (k2, map App outs ++ match mt with CON => [Wire (if matched then ACK else RST)] | _ => [] end)
-    | SEmpty _ mt mid_req =>
-        match mt, mid_req, k_exchange k with
-        | ACK, true, Some _ => (sync k (k_sys k) (k_token k) None, [])
-        | RST, true, Some _ =>                                (* messageerror_monitor: request.add_exception(MessageError) *)
-            let '(s', outs) := add_event (k_sys k) now (EvExn MessageError) in (sync k s' (k_token k) None, map App outs)
-        | _, _, _ => (k, [])
-        end
+    | SEmpty _ mt mid_req => empty_step k now mt mid_req
     | SNetError _ =>                                          (* MessageManager.dispatch_error *)
         (* an exception out of TokenManager.dispatch_error skips the removal of the remote's exchanges *)
         let '(k1, outs) := dispatch_error k NetworkError in
